@@ -13,6 +13,11 @@ PREDS_FULL = [(), (('pos', 1),), (('pos', 2),), (('last',),), (('child', 'b'),),
               # chained predicates: the second one counts positions among the survivors of the first, in axis order
               (('posgt', 1), ('pos', 1)), (('posgt', 1), ('last',)), (('attr', 'id'), ('pos', 1)), (('pos', 2), ('pos', 1))]
 PREDS_RED = [(), (('pos', 1),), (('last',),), (('posgt', 1), ('pos', 1))]
+# chains of three to five predicates: the positional one at the end still counts in axis order (an always-true
+# 'position()>0' keeps every candidate so that the depth of the chain is the only thing that varies)
+_T = ('posgt', 0)
+PREDS_DEEP = [(_T, _T, ('pos', 1)), (_T, _T, _T, ('pos', 1)), (_T, _T, _T, ('last',)), (_T, _T, _T, _T, ('pos', 1)),
+              (('notchild', 'b'), _T, _T, ('pos', 1)), (_T, _T, ('posgt', 1), ('pos', 1)), (_T, ('attr', 'id'), _T, ('pos', 2))]
 PREFIXES = ['', '/', '//']
 SEPS = ['/', '//']
 
